@@ -237,10 +237,10 @@ func genWrappers(t *rapid.T) []*Node {
 	return ws
 }
 
-// genDepth: about a fifth shallow trees (depth 0-2), the rest depth 3-8; the
+// genDepth: roughly a fifth shallow trees (depth 0-2), the rest depth 3-8; the
 // selector shrinks towards shallow.
 func genDepth(t *rapid.T) int {
-	if rapid.IntRange(0, 9).Draw(t, "deep?") < 2 {
+	if rapid.IntRange(0, 9).Draw(t, "deep?") < 1 {
 		return rapid.IntRange(0, 2).Draw(t, "depth")
 	}
 	return 3 + rapid.IntRange(0, 5).Draw(t, "depth")
